@@ -634,6 +634,50 @@ theorem mem_hashes_unmark {s : Pool} (txs : List Tx) (hroom : s.pending.length +
       exact mono us _ hu
     · exact ih hlen t ht'
 
+/-! ### UnMarkExecuted in full (`unmarkE`): the evicted cache is the only difference to `unmark` -/
+
+theorem add_evicted_comm (s : Pool) (t : Tx) (e : List Nat) :
+    (({ s with evicted := e } : Pool).add t).1 = { (s.add t).1 with evicted := e } := by
+  unfold Pool.add
+  have h1 : ({ s with evicted := e } : Pool).existed t.hash = s.existed t.hash := rfl
+  rw [h1]
+  split
+  · rfl
+  · simp only [Pool.push]; split <;> rfl
+
+theorem unmark_evicted_comm (txs : List Tx) : ∀ (s : Pool) (e : List Nat),
+    ({ s with evicted := e } : Pool).unmark txs = { (s.unmark txs) with evicted := e } := by
+  unfold Pool.unmark
+  induction txs with
+  | nil => intro s e; rfl
+  | cons t ts ih =>
+    intro s e
+    simp only [List.foldl_cons]
+    have : ((({ s with evicted := e } : Pool).delExec t.hash).add t).1 = { ((s.delExec t.hash).add t).1 with evicted := e } :=
+      add_evicted_comm (s.delExec t.hash) t e
+    rw [this]
+    exact ih _ e
+
+theorem unmarkE_spec (s : Pool) (txs : List Tx) (ev : List Nat) :
+    s.unmarkE txs ev = { (s.unmark txs) with evicted := if txs = [] then s.evicted else ev.foldl lruRemove s.evicted } := by
+  unfold Pool.unmarkE
+  split
+  · rename_i h; subst h; simp [Pool.unmark]
+  · rename_i h
+    simp only [h, if_false]
+    exact unmark_evicted_comm txs s _
+
+theorem hashes_unmarkE (s : Pool) (txs : List Tx) (ev : List Nat) : (s.unmarkE txs ev).hashes = (s.unmark txs).hashes := by
+  rw [unmarkE_spec]; rfl
+
+theorem execHashes_unmarkE (s : Pool) (txs : List Tx) (ev : List Nat) : (s.unmarkE txs ev).execHashes = (s.unmark txs).execHashes := by
+  rw [unmarkE_spec]; rfl
+
+theorem inv_unmarkE {s : Pool} (txs : List Tx) (ev : List Nat) (hi : Inv s) : Inv (s.unmarkE txs ev) := by
+  have h := inv_unmark txs hi
+  rw [unmarkE_spec]
+  exact ⟨h.nodup, h.disjoint, h.batch, h.attached⟩
+
 /-! ### expiry -/
 
 theorem hashes_expire_sublist (s : Pool) : s.expire.hashes.Sublist s.hashes := by
